@@ -902,6 +902,28 @@ func (g *cacheGen) history() string {
 	for i := 0; i < 2+r.Intn(2); i++ {
 		ts = append(ts, allT[r.Intn(len(allT))])
 	}
+	if r.Chance(12) {
+		// question tuples whose components READ the same when written one after the other as decimal text
+		// (type 1 + name "6example…" / type 16 + name "example…"; class 1 + type 16 / class 11 + type 6;
+		// profile abc123 + class 1 / profile abc12 + class 31): different questions for the upstream, and they
+		// must be for the cache whatever the key is made of
+		c.Stat("hist:decimal-juxtaposition")
+		b := [][]string{{"example", "com"}, {"foo", "com"}, {"a", "b"}, {"host"}}[r.Intn(4)]
+		fam := [][3]int{{1, 16, 6}, {2, 28, 8}, {1, 12, 2}, {1, 15, 5}, {6, 65, 5}}[r.Intn(5)]
+		pre := append([]string{strconv.Itoa(fam[2]) + b[0]}, b[1:]...)
+		cl := r.Pick([]int{1, 1, 3})
+		qs = []cq{{wire: wireName(pre...), typ: fam[0], class: cl}, {wire: wireName(b...), typ: fam[1], class: cl}}
+		if r.Chance(50) {
+			qs = append(qs, cq{wire: wireName(b...), typ: 16, class: 1}, cq{wire: wireName(b...), typ: 6, class: 11})
+		}
+		if r.Chance(50) {
+			qs = append(qs, cq{wire: wireName(b...), typ: 1, class: 1}, cq{wire: wireName(b...), typ: 1, class: 31})
+			ts = []target{{"p", "abc123"}, {"p", "abc12"}}
+		}
+		if r.Chance(50) {
+			qs[0], qs[1] = qs[1], qs[0]
+		}
+	}
 	protos := []string{"HTTP/2.0", "HTTP/2.0", "HTTP/1.1", "HTTP/3.0"}
 	g.now = cacheT0
 	g.serial = 0
